@@ -1,6 +1,7 @@
 //! Registry: which scenario serves which property, plan generation, execution, shrinking.
 
 use crate::harness::{self, Outcome, RunStats};
+use crate::scen_disk::{self, DiskPlan};
 use crate::scen_wire::{self, WirePlan};
 use serde::{Deserialize, Serialize};
 use simcore::Rng;
@@ -9,12 +10,15 @@ use simcore::Rng;
 #[serde(tag = "scenario")]
 pub enum Plan {
     Wire(WirePlan),
+    Disk(DiskPlan),
 }
 
 pub const WIRE_PROPS: &[&str] = &["C01", "C02", "C03", "C05", "C06", "C07", "C08", "C13", "C17"];
+pub const DISK_PROPS: &[&str] = &["C09", "C10", "C18"];
 
 pub fn properties() -> Vec<&'static str> {
     let mut v: Vec<&'static str> = WIRE_PROPS.to_vec();
+    v.extend(DISK_PROPS);
     v.sort();
     v
 }
@@ -22,6 +26,9 @@ pub fn properties() -> Vec<&'static str> {
 pub fn gen_plan(property: &str, rng: &mut Rng, thorough: bool) -> Option<Plan> {
     if WIRE_PROPS.contains(&property) {
         return Some(Plan::Wire(scen_wire::gen_plan(rng, property, thorough)));
+    }
+    if DISK_PROPS.contains(&property) {
+        return Some(Plan::Disk(scen_disk::gen_plan(rng, property, thorough)));
     }
     None
 }
@@ -51,12 +58,14 @@ fn run_plan_here(plan: &Plan, seed: u64, verbose: bool) -> (Outcome, RunStats) {
             let p2 = p.clone();
             harness::run_sim(seed, &p.knobs, verbose, move || scen_wire::run(p2))
         }
+        Plan::Disk(p) => scen_disk::run(p, seed, verbose),
     }
 }
 
 pub fn shrink(plan: &Plan) -> Vec<Plan> {
     match plan {
         Plan::Wire(p) => scen_wire::shrink(p).into_iter().map(Plan::Wire).collect(),
+        Plan::Disk(p) => scen_disk::shrink(p).into_iter().map(Plan::Disk).collect(),
     }
 }
 
@@ -64,6 +73,9 @@ pub fn shrink(plan: &Plan) -> Vec<Plan> {
 pub fn budget(property: &str, thorough: bool) -> (u64, u64) {
     // (runs, wall-clock cap in seconds)
     let quick = match property {
+        "C10" => 400,
+        "C09" => 6_000,
+        "C18" => 2_500,
         "C06" | "C02" | "C13" | "C08" | "C17" => 12_000,
         _ => 10_000,
     };
@@ -92,6 +104,9 @@ pub fn rule_text(property: &str) -> &'static str {
         "C08" => "adversarial requests reaching $SYS literally or by wildcard, sentinels planted by the internal client; non-trivial: >=3 answered requests; distinct = distinct trace hashes",
         "C13" => "pipelined sequences over all message kinds with valid and invalid arguments; non-trivial: >=5 answered requests incl. >=1 error; distinct = distinct trace hashes",
         "C17" => "adversarial sessions (garbage, hostile orders) next to a well-behaved witness session, debug assertions on; non-trivial: >=3 answered requests; distinct = distinct trace hashes",
+        "C09" => "fault-free persistence cycles (periodic flush then kill, or clean shutdown) and directories laid out by the harness in schema v1/v2/v3 in both toggle states, damaged primary slots; non-trivial: the snapshot holds a CAS entry or a registration; distinct = distinct trace hashes",
+        "C10" => "histories of 2-5 flushes with distinct states; for one flush of each history EVERY file-system operation (plus torn variants of *.tmp writes) is used as crash point, one simulated run each, followed by a restart; evaluations counts crash-point runs; non-trivial: crash landed inside a flush that had a completed predecessor; distinct = distinct trace hashes of histories",
+        "C18" => "ReDB backend: 1-25 operations, node killed between two scheduler turns of the writer task (or stopped cleanly), database file copied, new instance; non-trivial: >=3 prefixes; distinct = distinct trace hashes",
         _ => "seeded runs; distinct = distinct trace hashes among non-trivial runs",
     }
 }
